@@ -971,7 +971,7 @@ M("c12-model-not-a-provider", "C12", ["C12.same-path"],
 M("c12-listeners-only-on-transitions", "C12", ["C12.same-path"],
   E(GR, "        yield state\n        yield from state.transitions", "        yield from state.transitions"))
 M("c12-setstate-f15-reintroduced", ["C12", "C17"], ["C12.engine", "C17.steps"],
-  E(SM, """        # the listeners were attached after `_register_callbacks` decided between sync and async
+  E(SM, """        # listeners attached after `_register_callbacks` decided between sync and async
         self._callbacks.async_or_sync()
 """, ""), note="F15")
 M("c12-resolve-stops-after-first-builder", "C12", ["C12.allproviders"],
@@ -1007,8 +1007,34 @@ M("c17-shared-registry-with-original", "C17", ["C17.excluded", "C17.carry"],
 """, ""),
   E(SM, """        self.__dict__.update(state)
         self._callbacks = CallbacksRegistry()""", """        self.__dict__.update(state)"""))
-M("c17-listeners-not-reattached", "C17", ["C17.carry", "C17.steps"],
-  E(SM, "        self.add_listener(*listeners.keys())\n", ""))
+M("c17-listeners-not-reattached", "C17", ["C17.carry", "C17.steps", "C17.attach"],
+  E(SM, """        self._register_callbacks([o for o, attached in listeners.items() if not attached])
+        for attach_pass in sorted({attached for attached in listeners.values() if attached}):
+            self.add_listener(*(o for o, attached in listeners.items() if attached == attach_pass))
+""", "        self._register_callbacks([])\n"))
+M("c17-f16-f22-reintroduced", "C17", ["C17.attach", "C17.steps"],
+  E(SM, """        self._register_callbacks([o for o, attached in listeners.items() if not attached])
+        for attach_pass in sorted({attached for attached in listeners.values() if attached}):
+            self.add_listener(*(o for o, attached in listeners.items() if attached == attach_pass))
+""", """        self._register_callbacks([])
+        self.add_listener(*listeners.keys())
+"""), note="F16 + F22: every saved listener re-attached in a late pass, after validation")
+M("c17-restore-single-joint-pass", "C17", ["C17.attach"],
+  E(SM, """        self._register_callbacks([o for o, attached in listeners.items() if not attached])
+        for attach_pass in sorted({attached for attached in listeners.values() if attached}):
+            self.add_listener(*(o for o, attached in listeners.items() if attached == attach_pass))
+""", """        self._register_callbacks(list(listeners))
+"""), note="the seeded change s17-1 rebased on the repaired tree: late listeners folded into the constructor pass")
+M("c17-late-listeners-marked-like-constructor-ones", "C17", ["C17.attach"],
+  E(SM, "        attach_pass = max(self._listeners.values(), default=0) + 1\n", "        attach_pass = 0\n"))
+M("c17-late-passes-replayed-before-constructor-pass", "C17", ["C17.attach", "C17.steps"],
+  E(SM, """        self._register_callbacks([o for o, attached in listeners.items() if not attached])
+        for attach_pass in sorted({attached for attached in listeners.values() if attached}):
+            self.add_listener(*(o for o, attached in listeners.items() if attached == attach_pass))
+""", """        for attach_pass in sorted({attached for attached in listeners.values() if attached}):
+            self.add_listener(*(o for o, attached in listeners.items() if attached == attach_pass))
+        self._register_callbacks([o for o, attached in listeners.items() if not attached])
+"""))
 M("c17-getstate-no-copy", "C17", ["C17.carry"],
   E(SM, "        state = self.__dict__.copy()", "        state = self.__dict__"), note="serialising mutates the live machine (deletes its engine)")
 
